@@ -880,7 +880,19 @@ impl Check for C14 {
         tier.pick(24_000, 900_000)
     }
     fn strategy(_tier: Tier) -> BoxedStrategy<Case> {
-        let palette = prop::collection::vec(value(), 1..=7);
+        // "precision clusters": values that collide under a lossy promotion to float/double
+        // (a comparator that rounds before comparing is not transitive on them)
+        let clusters: Vec<Vec<Option<MT>>> = vec![
+            vec![lit("16777216", "integer"), lit("16777217", "integer"), lit("16777218", "integer"), lit("16777216", "float"), lit("1.6777218E7", "float"), lit("16777217.5", "decimal"), lit("16777217", "int")],
+            vec![lit("9007199254740992", "integer"), lit("9007199254740993", "integer"), lit("9007199254740994", "integer"), lit("9007199254740992", "double"), lit("9.007199254740994E15", "double"), lit("9007199254740993.5", "decimal"), lit("9007199254740993", "long")],
+            vec![lit("0.1", "decimal"), lit("0.1", "float"), lit("0.1", "double"), lit("0.10000000149011612", "decimal"), lit("0.1000000000000000055511151231257827", "decimal"), lit("1", "integer"), lit("0", "integer")],
+            vec![lit("16777217", "integer"), lit("16777216", "float"), lit("16777216", "integer"), lit("16777217", "double"), lit("16777216.5", "double"), lit("-16777217", "integer"), lit("-16777216", "float")],
+        ];
+        let cluster_palette = (pick(clusters), prop::collection::vec(0usize..64, 0..6)).prop_map(|(c, sw)| crate::gen::permute(c, &sw));
+        let palette = prop_oneof![
+            6 => prop::collection::vec(value(), 1..=7),
+            1 => cluster_palette,
+        ];
         let n = prop_oneof![7 => 2usize..=12, 3 => 21usize..=48];
         (prop::collection::vec(palette, 1..=3), n)
             .prop_flat_map(|(palettes, n)| {
